@@ -622,6 +622,19 @@ func checkBigDump(r *h.Run) {
 		}
 		return []int{size + size/10, size + 4096, 3 * size, 64 << 20}
 	})
+	// dumps that need two and three doublings of the first buffer (seed C20-12A: one
+	// estimate plus a single retry), with the default and with sufficient maxmem
+	for _, n := range []int{200, 360} {
+		n := n
+		checkDumpOfSize(r, deep, n, func(size int) []int {
+			r.Set(fmt.Sprintf("big_dump_bytes_%d", n), size)
+			if size <= 2<<20 {
+				r.Note("%d deep goroutines produced only %d bytes; the repeated-doubling requests are not exercised", n, size)
+				return nil
+			}
+			return []int{0, 64 << 20, size + size/10}
+		})
+	}
 }
 
 // checkDumpOfSize parks n deep goroutines and requests the page with each maxmem
